@@ -127,9 +127,8 @@ fn c03_targets() -> R {
             Some(true) => {
                 expected_paths += 1;
                 let x = crate::must_some!(at(&pr, path), "hidden element vanished instead of being replaced by a placeholder");
-                let want = if is_obscured_kind(o.kind) && s.how == 0 && o.kind == Kind::Elided { Kind::Elided } else { obscured_kind(s.how) };
-                // an element that was already obscured may stay as it was
-                ensure!(x.kind == want || (is_obscured_kind(o.kind) && x.kind == o.kind), "targeted element not obscured", "at {:?}: {:?} (original {:?}), expected {:?}", path, x.kind, o.kind, want);
+                let want = obscured_kind(s.how);
+                ensure!(x.kind == want, "targeted element not obscured as the action says", "at {:?}: {:?} (original {:?}), expected {:?}", path, x.kind, o.kind, want);
                 ensure!(x.d == o.d, "placeholder carries another digest", "at {:?}", path);
             }
             Some(false) => {
